@@ -26,7 +26,8 @@ block = "\n".join([BEGIN, "", "#### Repaired defects (%d `fix:` commits in /repo
                    "(X12): the public `format_to` path never worked (dangling `fmt_buffer` pointer, wrong brace escapes, surplus arguments "
                    "appended); the repair is a ~120-line rewrite (`build/fixes/X12-format-to-single-pass-scanner.patch` is kept as a "
                    "proposal) and was not applied, so `check.py X12` reports it.", "",
-                   "\n\n".join(xparts), "", END])
+                   "\n\n".join(xparts), "",
+                   open('/verif/pending/TIMINGS.md').read().strip() if glob.glob('/verif/pending/TIMINGS.md') else "", "", END])
 if BEGIN in s:
     s = re.sub(re.escape(BEGIN) + r".*?" + re.escape(END), lambda m: block, s, flags=re.S)
 else:
